@@ -173,6 +173,7 @@ func main() {
 	overlay := flag.String("overlay", "", "overlay JSON to write")
 	copyall := flag.Bool("copyall", false, "copy other files too")
 	statsFile := flag.String("stats", "", "write rewrite counts as JSON")
+	inject := flag.String("inject", "", "extra source file added to the package through the overlay (as zz_verif_hooks.go)")
 	flag.Parse()
 	if *src == "" || *dst == "" {
 		fmt.Println("usage: vinstr -src DIR -dst DIR")
@@ -223,6 +224,15 @@ func main() {
 			o.Close()
 			in.Close()
 		}
+	}
+	if *inject != "" {
+		b, err := os.ReadFile(*inject)
+		if err != nil {
+			fmt.Println("ENGINE-ERROR", err)
+			os.Exit(2)
+		}
+		os.WriteFile(filepath.Join(dstDir, "zz_verif_hooks.go"), b, 0644)
+		rep[filepath.Join(srcDir, "zz_verif_hooks.go")] = filepath.Join(dstDir, "zz_verif_hooks.go")
 	}
 	if *overlay != "" {
 		b, _ := json.MarshalIndent(map[string]interface{}{"Replace": rep}, "", " ")
